@@ -400,6 +400,23 @@ def make_mid():
     return Mid()
 
 
+class Other(object):
+    oattr = 1
+
+
+class Holder(object):
+    def fill(self, c, d, e):
+        x = Mid()
+        y = Other()
+        while c:
+            if d:
+                x = y
+            if e:
+                y = x
+                self.inner = y
+        self.final = x
+
+
 item = make_mid()
 while item:
     last = item
@@ -419,6 +436,17 @@ base = m1.second.Base()
 print(base.shared.upper, x.shared.battr, base.bmeth().shared, x.mother().shared, m1.val.shared.lower)
 print(M.mattr, m1.Mid.mattr, m1.Mid.mmeth, m1.second.Base.battr, M().mattr, x.mattr)
 print(m1.second.first(None).battr, m1.second.descend(None).binst, m1.second.first(x).bmeth)
+h = m1.Holder()
+print(h.final.mattr, h.inner.oattr, h.inner.mattr, h.final.oattr)
+p = m1.Mid()
+q = m1.second.Base()
+while i:
+    if z:
+        p = q
+    if w:
+        q = p
+    print(q.battr, p.mattr)
+print(p.mattr, q.binst, p.battr, q.bmeth)
 '''
 PK_INIT = '''from .b import bval
 from . import b as bmod
